@@ -60,7 +60,7 @@ def premise_renderers_sort(repo):
 
 
 def premise_disambiguation_only_names(repo):
-  fi = repo.func('rule_translate.DisambiguateCombineVariables.Replace')
+  fi = K.combine_disambiguator(repo)
   ok = False
   for x in walk_local(fi.node):
     if isinstance(x, ast.BinOp) and isinstance(x.op, ast.Mod) and \
@@ -75,7 +75,7 @@ def premise_disambiguation_only_names(repo):
 
 
 EXEMPTIONS = [
-    dict(fn='rule_translate.DisambiguateCombineVariables.Replace',
+    dict(fn=lambda repo: K.combine_disambiguator(repo).fq,     # located by role
          source='introduced_variables',
          reason='the allocated number only decorates an internal variable '
                 'name that never reaches SQL; the allocator ends in the same '
@@ -134,7 +134,9 @@ def set_order(chk, rid):
       chk.ob(rid, True, None, construct, s.reason, fi=s.fi, node=s.node,
              nontrivial=(s.verdict != 'ok' or s.kind in ('for', 'comprehension')))
   for i, ex in enumerate(EXEMPTIONS):
-    fi = repo.func(ex['fn'])
+    fn_name = ex['fn'](repo) if callable(ex['fn']) else ex['fn']
+    ex = dict(ex, fn=fn_name)
+    fi = repo.func(fn_name)
     if ex['premise'] is not None:
       ok, text = ex['premise'](repo)
       chk.ob(rid, ok, None, 'premise of exemption %s: %s' % (ex['source'], text),
